@@ -21,7 +21,7 @@ type forcedCase struct {
 }
 
 func runForced(c *core.Case) {
-	fc := &forcedCase{Kind: "forced", Scenario: []string{"M1", "M2", "M3", "M4", "M5", "M6", "M7"}[(c.Index/8)%7]}
+	fc := &forcedCase{Kind: "forced", Scenario: []string{"M1", "M2", "M3", "M4", "M5", "M6", "M7", "M8"}[(c.Index/8)%8]}
 	c.Sample(fc)
 	execForced(c, fc)
 }
@@ -197,7 +197,7 @@ func execForced(c *core.Case, fc *forcedCase) {
 			}
 		}
 		do(step{Op: "barrier"})
-	case "M6", "M7":
+	case "M6", "M7", "M8":
 		// The room's answer to a join arrives in two transport writes and the
 		// caller gives up in between: M6 the error reply for the request id (its
 		// start tag is matched with the request and handed to the request
@@ -205,22 +205,31 @@ func execForced(c *core.Case, fc *forcedCase) {
 		// the rest has arrived the serve loop must go on: the barrier behind it
 		// is answered.  The call itself may return the context's error (it was
 		// cancelled) or the room's answer.
+		// M8 is M6 for Leave: the room refuses the leave request with an error
+		// presence that arrives in two pieces around the caller's cancellation.
 		for k := 0; k < 4 && !d.aborted; k++ {
 			label := fmt.Sprintf("j%d", k)
 			do(step{Op: "join", Label: label})
+			if fc.Scenario == "M8" {
+				if !do(step{Op: "seen", Label: label}) || !do(step{Op: "self"}) || !do(step{Op: "await", Label: label, Must: true}) {
+					break
+				}
+				label = fmt.Sprintf("l%d", k)
+				do(step{Op: "leave", Label: label})
+			}
 			cl := d.calls[label]
-			if !do(step{Op: "seen", Label: label}) {
+			if cl == nil || !do(step{Op: "seen", Label: label}) {
 				break
 			}
 			var first, rest string
-			if fc.Scenario == "M6" {
+			if fc.Scenario == "M6" || fc.Scenario == "M8" {
 				cond := roomErrors[k%len(roomErrors)]
 				first, rest = errorPieces(addr, cl.reqID, cond[0], cond[1])
 				rule := ctl.Park("serve.handoff", cl.reqID)
 				w.log.add(event{Ev: "presence", Addr: addr, Typ: "error", ID: cl.reqID, Cond: cond[1], Self: true})
 				w.send(first)
 				if !rule.WaitArrived(grace) {
-					c.Notef("M6: the start tag of the error reply was never handed to the request")
+					c.Notef("%s: the start tag of the error reply was never handed to the request", fc.Scenario)
 					rule.Release()
 					w.send(rest)
 					break
